@@ -145,7 +145,7 @@ func main() {
 	for _, t := range todo {
 		s, err := generate(*repo, t)
 		if err != nil {
-			fmt.Fprintf(os.Stderr, "go2coq: target %s (%s):\n", t.Name, t.Prop)
+			fmt.Fprintf(os.Stderr, "go2coq: target %s (%s), nothing written:\n", t.Name, t.Prop)
 			fatalErr(err)
 		}
 		if *stdout {
@@ -192,10 +192,9 @@ func fatal(code int, format string, a ...any) {
 }
 
 func fatalErr(err error) {
+	fmt.Fprintf(os.Stderr, "%v\n", err)
 	if _, ok := err.(*Refusal); ok {
-		fmt.Fprintf(os.Stderr, "go2coq: %v\n", err)
 		os.Exit(2)
 	}
-	fmt.Fprintf(os.Stderr, "go2coq: %v\n", err)
 	os.Exit(1)
 }
